@@ -35,6 +35,7 @@ ELEMENTS = [
     gen(5, cls(2)), gen(5, cls(3)), gen(5, cls(4)),
     gen(6, cls(7), cls(2)), gen(6, cls(7), cls(3)),
     gen(5, gen(5, cls(2))), gen(5, gen(5, cls(3))),
+    gen(6, cls(7)), gen(5, cls(2), cls(3)), gen(5, gen(5, cls(2), cls(3))),   # same origin, other number of arguments
     {"k": "any"},
 ]
 
@@ -161,7 +162,7 @@ def run(prop, tier, seed, replay=None):
     rep.sample({"elements": res[0]["world"]["elements"], "methods": res[0]["world"]["methods"], "first_steps": res[0]["steps"][:2]})
     rep.rule = (
         "passed objects: object, A, B(A), C, list, dict, list[A], list[B], list[C], dict[str,A], dict[str,B], list[list[A]], list[list[B]] "
-        "(typing.Any handled as object); random sets of 2-5 methods annotated type[X] (X any of them; bare `type`; plain object), optionally with a "
+        "dict[str], list[A,B], list[list[A,B]] (other arities), (typing.Any handled as object); random sets of 2-5 methods annotated type[X] (X any of them; bare `type`; plain object), optionally with a "
         "second, ordinary class-dispatched position; every passed object x every second argument. non-trivial = >= 2 applicable methods."
     )
     return rep.finish()
